@@ -37,20 +37,24 @@
 (*                        start of the run only (what the code documents   *)
 (*                        and does); "dev" = at every occurrence.          *)
 (***************************************************************************)
-EXTENDS Integers, Sequences, FiniteSets, FiniteSetsExt, TLC
+EXTENDS Integers, Sequences, FiniteSets, FiniteSetsExt, TLC, Json, IOUtils
 
-CONSTANT MccPairs      \* sequence of <<code point, modified class>> for every code point of class # 0
+\* sequence of <<code point, modified class>> for every code point of class # 0: the file named
+\* by the environment variable C17_MCC, dumped from allsorts by the driver before TLC starts
+\* (a zero-arity constant-level definition: TLC evaluates it once)
+MccPairs == JsonDeserialize(IOEnv.C17_MCC)
 
 ---------------------------------------------------------------------------
 \* ---- the class table (input) ------------------------------------------------
 MccFn == [c \in {MccPairs[i][1] : i \in DOMAIN MccPairs} |->
             LET i == CHOOSE i \in DOMAIN MccPairs : MccPairs[i][1] = c IN MccPairs[i][2]]
-Cls(c)    == IF c \in DOMAIN MccFn THEN MccFn[c] ELSE 0
+MarkSet   == DOMAIN MccFn
+Cls(c)    == IF c \in MarkSet THEN MccFn[c] ELSE 0
 IsMark(c) == Cls(c) # 0
 
-Range(s)    == {s[i] : i \in DOMAIN s}
+Rng(s)    == {s[i] : i \in DOMAIN s}
 Count(s, c) == Cardinality({i \in DOMAIN s : s[i] = c})
-BagOf(s)    == [c \in Range(s) |-> Count(s, c)]
+BagOf(s)    == [c \in Rng(s) |-> Count(s, c)]
 Insert(s, i, c) == SubSeq(s, 1, i - 1) \o <<c>> \o SubSeq(s, i, Len(s))     \* c becomes s'[i]
 
 ---------------------------------------------------------------------------
@@ -309,7 +313,14 @@ RunsRel(shape, x, y) ==
          [] shape = "amtra"    -> IsAmtraOf(rx, ry)
          [] shape = "identity" -> rx = ry
 
-\* every maximal mark run is in ascending class order
+\* every maximal mark run is in ascending class order (for Kannada: before the documented
+\* ra+halant+ZWJ swap, which takes the halant out of its run)
+RECURSIVE RaUnswapAll(_)
+RaUnswapAll(s) ==
+  IF Len(s) < 3 THEN s
+  ELSE IF s[1] = KRa /\ s[2] = ZWJ /\ s[3] = KHalant
+       THEN <<KRa, KHalant, ZWJ>> \o RaUnswapAll(SubSeq(s, 4, Len(s)))
+  ELSE <<s[1]>> \o RaUnswapAll(Tail(s))
 RunsSorted(y) == \A i \in 1 .. (Len(y) - 1) : (IsMark(y[i]) /\ IsMark(y[i + 1])) => Cls(y[i]) <= Cls(y[i + 1])
 
 \* content: what is compared once the documented insertions are set aside and the documented
@@ -341,7 +352,8 @@ RelFailures(tag, x, y) ==
 \cup (IF fam \in {"Syriac", "Default"} /\ PermRel(x, y) /\ ~RunsRel("stable", x, y) THEN {"stable"} ELSE {})
 \cup (IF fam = "Arabic" /\ PermRel(x, y) /\ ~RunsRel("amtra", x, y) THEN {"amtra"} ELSE {})
 \cup (IF fam = "Myanmar" /\ x # y THEN {"identity"} ELSE {})
-\cup (IF fam \in {"ThaiLao", "Indic", "Khmer"} /\ ~RunsSorted(y) THEN {"sorted"} ELSE {})
+\cup (IF fam \in {"ThaiLao", "Indic", "Khmer"} /\ ~RunsSorted(IF tag = "knda" THEN RaUnswapAll(y) ELSE y)
+      THEN {"sorted"} ELSE {})
 
 \* What one primitive step may do (x before, y after): the invariant every action preserves.
 StageOK(tag, st, x, y) ==
